@@ -10,8 +10,8 @@ def scenarios(tier, seed):
     rnd = random.Random(seed)
     sizes = SIZES_Q if tier == "quick" else SIZES_T + [rnd.randrange(2, 300000) for _ in range(6)]
     out, i = [], 0
-    # the pinned schedule of the open finding F-12b: the deferred teardown of the failed attempt's goroutine runs
-    # after the relaunched attempt installed its files
+    # the pinned schedule of F-12b (fixed): the deferred part of the failed attempt's goroutine runs after the relaunched
+    # attempt installed its files
     out.append({"id": 0, "stdoutFile": True, "stderrFile": False, "output": False, "script": False, "retries": 1, "failUntil": 1,
                 "nout": 100, "nerr": 10, "order": "outfirst", "doneChan": True, "tailLate": True})
     for so, se, ou, scr in itertools.product([False, True], repeat=4):
@@ -24,9 +24,9 @@ def scenarios(tier, seed):
                 # below the 128 KiB limit of one environment string or every later exec fails with E2BIG)
                 out.append({"id": i, "stdoutFile": so, "stderrFile": se, "output": ou, "script": scr, "retries": retries, "failUntil": fail,
                             "nout": n, "nerr": min([0, 1, n // 2 + 1, n][i % 4], 1000 if ou else n), "order": ["outfirst", "errfirst", "chunks"][i % 3],
-                            # Schedule without a done channel is what the unit tests do; the agent always passes one. Retries are only
-                            # driven the agent's way: the other path releases the step for relaunch before its own teardown (race).
-                            "doneChan": True if fail > 0 else i % 2 == 0, "tailLate": False})
+                            # Schedule without a done channel is what the unit tests do; the agent always passes one.
+                            # tailLate: the old goroutine's deferred part is held until the next attempt is being executed
+                            "doneChan": i % 2 == 0, "tailLate": fail > 0 and (i // 2) % 2 == 0})
     return out
 
 
